@@ -32,15 +32,28 @@ def main():
         pipe = rnd.random() < 0.5
         scripts = [rnd.choice(CONN_SCRIPTS) if rnd.random() < 0.6 else {} for _ in range(6)]
         connect = {k: 'refuse' for k in range(6) if rnd.random() < 0.08}
-        r = rdrv.RelayRun(lmtp, pipe, scripts, pool_size=pool_size, idle_timeout=idle, connect=connect)
+        # a third of the runs give the relay a descriptor it can really poll (Client.has_reply_waiting) and let the downstream
+        # hang up on idle connections ('k': an unsolicited 421 and end-of-file on a connection that carries no transaction)
+        realfd = rnd.random() < 0.34
+        r = rdrv.RelayRun(lmtp, pipe, scripts, pool_size=pool_size, idle_timeout=idle, connect=connect, realfd=realfd)
         sched = rnd.choice(SCHEDULES)
+        if realfd:
+            sched = ''.join(ch + ('k' if ch == 's' and rnd.random() < 0.5 else '') for ch in sched)
         req = 0
         for ch in sched:
             if ch == 'c':
                 req += 1
                 r.attempt(req, rnd.randint(1, 2))
             elif ch == 's':
-                r.settle()
+                if realfd:
+                    r.tick_small()
+                else:
+                    r.settle()
+            elif ch == 'k':
+                idle_conns = [d for d in r.downs if not d.closed and not d.closed_by_peer and d.mode == 'cmd' and not d.stalled
+                              and not d.inbuf and not d.out and not d.acc]
+                if idle_conns and all(g.ready() for g in r.greenlets):
+                    rnd.choice(idle_conns).kick()
             elif ch == 'a':
                 r.settle()
                 if vt.CLOCK.next_deadline() is not None:
@@ -55,8 +68,8 @@ def main():
                                     'sched': sched}, 'ev': ev}, separators=(',', ':')) + '\n')
         n += 1
     # ---- directed: a transaction refused at one stage, then further messages on the same (reused) connection
+    dk = 0
     if shard == 0 or not quick:
-        dk = 0
         for lmtp in (False, True):
             for pipe in (False, True):
                 for stage in ('mail', 'rcpt', 'data', 'eod', 'rcptmix'):
@@ -77,6 +90,35 @@ def main():
                             f.write(json.dumps({'id': shard + n * nshards, 'cls': 'reuse-after-refusal',
                                                 'cfg': {'lmtp': lmtp, 'pipelining': pipe, 'kind': 'smtp', 'pool_size': 1, 'idle': 5, 'maxconn': max(8, r.nconn),
                                                         'sched': 'cscsc'}, 'ev': ev}, separators=(',', ':')) + '\n')
+                            n += 1
+    # ---- directed: the downstream hangs up on a pooled idle connection (its own idle timeout: unsolicited 421, end-of-file);
+    # the next request must not be answered with that stale reply
+    if shard == 1 % nshards or not quick:
+        for lmtp in (False, True):
+            for pipe in (False, True):
+                for gap in (0, 1):
+                    for code in (421, 451):
+                        for ps in (1, 2):
+                            dk += 1 if (shard == 0 or not quick) else 0
+                            if not quick and (dk + 7) % nshards != shard:
+                                continue
+                            r = rdrv.RelayRun(lmtp, pipe, [{}], pool_size=ps, idle_timeout=5, realfd=True)
+                            r.attempt(1, 1)
+                            if ps == 2:
+                                r.attempt(2, 1)
+                            r.tick_small()
+                            for d in list(r.downs)[:1 + gap]:
+                                d.kick(code)
+                            if gap:
+                                r.tick_small()
+                            r.attempt(3, 2)
+                            r.attempt(4, 1)
+                            r.tick_small()
+                            ev = r.run_to_end()
+                            stats['executions'] += 1
+                            f.write(json.dumps({'id': shard + n * nshards, 'cls': 'idle-hangup',
+                                                'cfg': {'lmtp': lmtp, 'pipelining': pipe, 'kind': 'smtp', 'pool_size': ps, 'idle': 5, 'maxconn': max(8, r.nconn),
+                                                        'sched': 'cskcsc'}, 'ev': ev}, separators=(',', ':')) + '\n')
                             n += 1
     # ---- the HTTP relay's pool: real HttpRelay against a loopback peer, several attempts, keep-alive on and off
     from harness import hdrv
